@@ -246,6 +246,15 @@ func (r *errPropRule) CallResult(x *Explorer, fr *Frame, c ssa.CallInstruction) 
 		"cosmossdk.io/errors.Wrap", "cosmossdk.io/errors.Wrapf", "errors.Is", "errors.As":
 		return nil, CallDefault // handled by the explorer's contract table (no bodies are entered for dependencies)
 	}
+	// a repository helper that is handed the error itself (a must-style helper that panics on it, a wrapper that
+	// decorates and returns it) is followed: what it does with the error is part of how the error is treated
+	if x.W.calleeBody(cc) != nil {
+		for _, a := range cc.Args {
+			if isErrorType(a.Type()) && derivesFrom(a, r.target) {
+				return nil, CallDefault
+			}
+		}
+	}
 	return vals, CallReplace
 }
 
